@@ -70,7 +70,7 @@ var declaredLimits = map[string][2]int64{
 func c14(c *Ctx) {
 	p, r := c.P, c.R
 	r.Technique = "schema engine: the SSZ layout of every fastssz-style struct is computed from field types and ssz tags and compared with the constants extracted (over go/ssa) from its decoder, encoder and size method; ordered field-list agreement of every ztyp codec's Deserialize / Serialize / ByteLength / FixedLength; totality and consistency of fork-digest tables"
-	r.Explanation = "Decides agreement of struct tags, encoder, decoder and size code with one computed schema and with the limits the statement declares: (R1) for every fastssz-style type the decoder's minimum/exact size, its offset reads (window, > size check, first offset == fixed-part size, monotone successors), its fixed windows and every limit constant (byte-list maxima, list maxima, element sizes, bit-list limit) equal the computed layout; the encoder's container offset and limits equal it (bit lists: the encoder may be looser by fastssz design); the size method starts from the fixed part; a bare list type (no container offset) must accept the 0-byte encoding of the empty list; (R2) the limits declared in the statement are the ones in the tags; (R3) for every ztyp codec the ordered list of fields handed to Deserialize, Serialize and ByteLength (and FixedLength where present) is the struct's field list, each once, in declaration order, and identical across the methods (HashTreeRoot lists are compared as an observation); (R4) each fork-tagged container's Deserialize and Serialize dispatch over the same fork cases with the same concrete types; (R5) Nibbles path prefix; (R6) no codec error is lost; (R7) the bytes an encoder returns do not alias storage it reuses for its next call (sync.Pool objects, package-level buffers). Not decided: equality of values/bytes after a round trip; canonicality inside fastssz/ztyp helpers (fastssz UnmarshalDynamic accepts 00000000 as an empty list - dependency behaviour)."
+	r.Explanation = "Decides agreement of struct tags, encoder, decoder and size code with one computed schema and with the limits the statement declares: (R1) for every fastssz-style type the decoder's minimum/exact size, its offset reads (window, > size check, first offset == fixed-part size (an equality: a lower bound alone is rejected), monotone successors), its fixed windows and every limit constant (byte-list maxima, list maxima, element sizes, bit-list limit) equal the computed layout; the encoder's container offset and limits equal it (bit lists: the encoder may be looser by fastssz design); the size method starts from the fixed part; a bare list type (no container offset) must accept the 0-byte encoding of the empty list; (R2) the limits declared in the statement are the ones in the tags; (R3) for every ztyp codec the ordered list of fields handed to Deserialize, Serialize and ByteLength (and FixedLength where present) is the struct's field list, each once, in declaration order, and identical across the methods (HashTreeRoot lists are compared as an observation); (R4) each fork-tagged container's Deserialize and Serialize dispatch over the same fork cases with the same concrete types; (R5) Nibbles path prefix; (R6) no codec error is lost; (R7) the bytes an encoder returns do not alias storage it reuses for its next call (sync.Pool objects, package-level buffers). Not decided: equality of values/bytes after a round trip; canonicality inside fastssz/ztyp helpers (fastssz UnmarshalDynamic accepts 00000000 as an empty list - dependency behaviour)."
 	r.Assumptions = []string{"fastssz helper semantics (ReadOffset, DecodeDynamicLength, DivideInt2, ValidateBitlist, UnmarshalDynamic)", "ztyp codec.Container/FixedLenContainer/ContainerLength semantics"}
 	r.Floor("R1.decoder", 25)
 	r.Floor("R1.encoder", 25)
@@ -147,6 +147,12 @@ func c14(c *Ctx) {
 					if i == 0 && o.FirstConst != N {
 						okOff = false
 						detail = fmt.Sprintf("first offset compared with %d, the fixed part is %d bytes (non-canonical encodings accepted)", o.FirstConst, N)
+					}
+					if i == 0 && o.FirstConst == N && o.FirstLoose {
+						// the form older generators emitted: an offset beyond the fixed part decodes,
+						// the bytes between are dropped and the value re-encodes to other bytes
+						okOff = false
+						detail = fmt.Sprintf("first offset only required to be >= %d, not == %d (a frame with filler after the fixed part decodes and re-encodes differently)", N, N)
 					}
 					if i > 0 && !o.Monotone {
 						okOff = false
